@@ -58,10 +58,10 @@ sim("C11", "THE CHILD SIDE FOR EVERY PARENT TABLE (C11_child_image_descriptors):
     "injected faults inside the child (a failed F_GETFD makes the code skip a close); that the parent-side invariants assumed of the table at fork (error pipes close-on-exec, all descriptors below the limit) hold — both decided by the tie's families.",
     "random descriptor tables incl. limit-1/limit-2/dense, limits 8..256, flags random, sibling handles, limit raised between starts, huge/infinite limits.",
     "Coq theorem over the whole child side of fork for all descriptor tables (state-aware Hoare logic over the world model) + random-table correspondence + image-descriptor monitor")
-sim("C12", "the regenerated reset-loop bounds cover signals 1..31, EINVAL tolerated only, the block-all set, exec keeps only ignored dispositions (world); THE CHILD SIDE (C12_child_clean): for every initial mask and disposition table, in any fault-free well-formed world, if the forked child reaches a successful exec the image starts with an empty signal mask and no non-default disposition for any signal 1..31 other than SIGKILL/SIGSTOP.",
-    "that every return path of start restores the parent's mask/dispositions/cwd/environment (parent side of process_fork under faults) — decided by the tie.",
+sim("C12", "THE PARENT SIDE, EVERY RETURN PATH, EVERY FAULT PLAN (C12_start_restores_caller): whenever reproc_start returns in the caller - success or failure, whatever calls the fault plan makes fail at any call index, whatever latencies, whatever the forked child and all other processes do - the caller's signal dispositions, working directory and environment are exactly what they were, and so is its signal mask unless the plan made a pthread_sigmask call itself fail (that failed call is then in the trace); the same for process_start and process_fork; the frame behind it (C12_child_code_is_framed): no library code run by a forked child touches another process's record. THE CHILD SIDE (C12_child_clean): for every initial mask and disposition table, in any fault-free well-formed world, if the forked child reaches a successful exec the image starts with an empty signal mask and no non-default disposition for any signal 1..31 other than SIGKILL/SIGSTOP. Also: the regenerated reset-loop bounds cover signals 1..31, EINVAL tolerated only, the block-all set, exec keeps only ignored dispositions (world).",
+    "the child side under injected faults (fault-free worlds only); that the world's pthread_sigmask/sigaction/fork are Linux's (world model).",
     "4 masks x 3 disposition tables x single-fault enumeration of 17 start scenarios.",
-    "Coq theorems (signal tables) + masks x faults correspondence + caller-state monitor")
+    "Coq theorems (parent side of start for all fault plans via a process-level frame; child side via a state-aware Hoare logic; signal tables) + masks x faults correspondence + caller-state monitor")
 sim("C14", "the life-cycle automaton: new; start transitions by sign of result and rejection of started handles; wait/stop cache a status only on success; not-started and in-child rejections with untouched world; closed-stream errors; idempotent close; bad arguments; exited handles inert.",
     "absence of crashes/UB in the C text itself (observed only: crash isolation, heap canaries).",
     "random histories over the whole API with 1-3 handles, NULL handles/buffers, bad stream numbers, invalid/failing starts, fork mode.",
